@@ -256,9 +256,10 @@ class IsotropicNormal(ssm_impl_api.AbstractTreeNormal[IsotropicTreeFlatten]):
         return self.tree_flatten.unflatten_array(sample_latent)
 
     def sample_flat(self, key):
-        n, _n = self.cholesky_flat.shape
-        base = random.normal(key, shape=(n,))
-        return self.mean_flat + (self.cholesky_flat @ base)[:, None]
+        # One independent draw per state dimension: the isotropic covariance is
+        # cov (x) I_d, i.e. the dimensions share the covariance, not the noise.
+        base = random.normal(key, shape=self.mean_flat.shape)
+        return self.mean_flat + self.cholesky_flat @ base
 
     def identity_conditional(self) -> IsotropicLatentCond:
         num, d = self.mean_flat.shape
